@@ -28,6 +28,7 @@ func init() {
 	core.RegisterMeta("C27", core.Meta{
 		Rule: "enumerated scenario table: server-credential scenarios (trusted, untrusted root, expired / not-yet-valid leaf, expired or missing intermediate, wrong name, SAN/IP names, Config.Time shifted both ways, flipped certificate signature, substituted key, flipped ServerKeyExchange/CertificateVerify signature, wire flips of ServerKeyExchange / Certificate, InsecureSkipVerify) " +
 			"x TLS1.0-1.3 x {RSA, ECDHE_RSA, ECDHE_ECDSA, DHE_RSA, TLS1.3} x key kinds; client-auth table: 5 ClientAuth modes x client credentials (none, trusted, untrusted, expired, wrong EKU, flipped certificate signature, substituted key, flipped CertificateVerify, wire flip) x versions x client key kinds; " +
+			"server-name-forms family: ServerName as DNS name / mixed case / trailing dot / IPv4 / IPv6 / bracketed / expanded / IPv4-mapped / zoned literal x trusted leaves whose SANs cover it by DNS, by IP, cover only other names, DNS only, CN only (expectation from the C09 matching rules; open readings recorded); " +
 			"resumption family: connection 1 (config X, possibly InsecureSkipVerify, server trusted/untrusted/expired/misnamed/incomplete chain) fills a shared ClientSessionCache, connection 2 (Y = X.Clone() with verification on, optionally Config.Time past NotAfter or another ServerName) must not complete against a server that does not verify for Y, resumed or not; " +
 			"peers zcrypto<->zcrypto, lying/honest Go server against the zcrypto client, lying/honest Go client against the zcrypto server. non-trivial = a row with an asserted expectation whose run reached a decision (verifying side returned); distinct by row description",
 		MinNontrivial:         1200,
@@ -253,6 +254,20 @@ func c27Table(c *core.Ctx) []c27Row {
 				}
 			}
 		}
+		// server name forms x SAN coverage (all chains trusted: only the name decides)
+		for _, cell := range []c27Cell{
+			{v12, "ecdhe_ecdsa", 0xc02b, tlspair.P256}, {v13, "tls13", 0x1301, tlspair.P256}, {v10, "ecdhe_ecdsa", 0xc009, tlspair.P256},
+			{v12, "rsa", 0x002f, tlspair.RSA2048}, {v11, "ecdhe_rsa", 0xc013, tlspair.RSA2048},
+		} {
+			for _, nf := range nameForms {
+				for _, lf := range nameLeaves {
+					add(c27Row{Peer: "zz", Vers: cell.vers, KX: cell.kx, Suite: cell.suite, Kind: cell.kind, Scenario: "name_form", Cred: nf.Name, CKind: lf})
+					if cell.vers >= v12 && cell.kind == tlspair.P256 {
+						add(c27Row{Peer: "zg", Vers: cell.vers, KX: cell.kx, Suite: cell.suite, Kind: cell.kind, Scenario: "name_form", Cred: nf.Name, CKind: lf})
+					}
+				}
+			}
+		}
 		// resumption must not bypass authentication: connection 1 (config X) fills a shared session cache,
 		// connection 2 (config Y, verification enabled) goes through the same cache to the same server
 		for _, cell := range []c27Cell{
@@ -299,6 +314,192 @@ func clientLeaf(cred, kind string) *tlspair.Leaf {
 		return e.BadSigClient[kind]
 	}
 	return nil
+}
+
+// ---- server name forms -------------------------------------------------------
+//
+// Reference expectation written from the C09 matching rules: an IP literal (optionally bracketed) matches
+// exactly the certificate's IP SANs; a DNS name matches a DNS SAN case-insensitively, label by label; the
+// common name is considered only when there is no SAN. Forms the documentation leaves open (trailing dot,
+// zone, IPv4-mapped IPv6 against an IPv4 SAN, CN fallback, IP in the CN) are recorded, not asserted —
+// unless no reading can make them match.
+
+type nameForm struct {
+	Name string
+	Host string // Config.ServerName
+	Kind string // dns | ip
+	IP   string // canonical address for ip forms
+	Open string // non-empty: reading left open by the documentation
+}
+
+var nameForms = []nameForm{
+	{Name: "dns", Host: "server.test", Kind: "dns"},
+	{Name: "dns_mixed_case", Host: "SeRvEr.TEST", Kind: "dns"},
+	{Name: "dns_trailing_dot", Host: "server.test.", Kind: "dns", Open: "trailing dot"},
+	{Name: "dns_other", Host: "other.test", Kind: "dns"},
+	{Name: "ipv4", Host: "127.0.0.1", Kind: "ip", IP: "127.0.0.1"},
+	{Name: "ipv4_other", Host: "127.0.0.2", Kind: "ip", IP: "127.0.0.2"},
+	{Name: "ipv6", Host: "::1", Kind: "ip", IP: "::1"},
+	{Name: "ipv6_bracketed", Host: "[::1]", Kind: "ip", IP: "::1"},
+	{Name: "ipv6_expanded", Host: "0:0:0:0:0:0:0:1", Kind: "ip", IP: "::1"},
+	{Name: "ipv4_mapped_ipv6", Host: "::ffff:127.0.0.1", Kind: "ip", IP: "127.0.0.1", Open: "IPv4-mapped IPv6 vs IPv4 SAN"},
+	{Name: "ipv6_zoned", Host: "::1%eth0", Kind: "ip", IP: "::1", Open: "zone"},
+	{Name: "ipv6_other", Host: "::3", Kind: "ip", IP: "::3"},
+}
+
+// nameLeaves: SAN content of the (trusted) server leaf.
+var nameLeaves = []string{"dns+ipv4", "dns+ipv4+ipv6", "other_dns+other_ips", "dns_only", "cn_only_dns", "cn_only_ip"}
+
+type leafNames struct {
+	dns []string
+	ips []string
+	cn  string // only when there is no SAN
+}
+
+func leafNamesOf(l string) leafNames {
+	switch l {
+	case "dns+ipv4":
+		return leafNames{dns: []string{"server.test", "alt.server.test"}, ips: []string{"127.0.0.1"}}
+	case "dns+ipv4+ipv6":
+		return leafNames{dns: []string{"server.test"}, ips: []string{"127.0.0.1", "::1"}}
+	case "other_dns+other_ips":
+		return leafNames{dns: []string{"wrong.test"}, ips: []string{"10.0.0.1", "::2"}}
+	case "dns_only":
+		return leafNames{dns: []string{"server.test"}}
+	case "cn_only_dns":
+		return leafNames{cn: "server.test"}
+	case "cn_only_ip":
+		return leafNames{cn: "127.0.0.1"}
+	}
+	return leafNames{}
+}
+
+// expectName: "ok" | "fail" | "" (left open)
+func expectName(f nameForm, l leafNames) string {
+	lower := strings.ToLower
+	if len(l.dns) == 0 && len(l.ips) == 0 {
+		// no SAN: whether (and for what) the CN is consulted is left open, except that a CN which differs
+		// from the host under every reading cannot match
+		host := lower(strings.TrimSuffix(strings.Trim(f.Host, "[]"), "."))
+		if lower(l.cn) == host || (f.Kind == "ip" && l.cn == f.IP) {
+			return ""
+		}
+		return "fail"
+	}
+	if f.Kind == "dns" {
+		host := lower(f.Host)
+		for _, d := range l.dns {
+			if lower(d) == host {
+				return "ok"
+			}
+		}
+		if f.Open != "" {
+			for _, d := range l.dns {
+				if lower(d) == strings.TrimSuffix(host, ".") {
+					return "" // matches only if the trailing dot is ignored
+				}
+			}
+		}
+		return "fail"
+	}
+	for _, ip := range l.ips {
+		if ip == f.IP {
+			if f.Open != "" {
+				return ""
+			}
+			return "ok"
+		}
+	}
+	return "fail" // no IP SAN equals the address under any reading; DNS SANs never match an IP literal
+}
+
+func (row c27Row) runNameForm(c *core.Ctx) {
+	p, e := tlspair.Get(), getExtra()
+	now := tlspair.Now
+	var f nameForm
+	for _, x := range nameForms {
+		if x.Name == row.Cred {
+			f = x
+		}
+	}
+	var leaf *tlspair.Leaf
+	switch row.CKind {
+	case "dns+ipv4":
+		leaf = p.Server[row.Kind]
+	case "dns+ipv4+ipv6":
+		leaf = e.NameIP6[row.Kind]
+	case "other_dns+other_ips":
+		leaf = e.NameOtherIP[row.Kind]
+	case "dns_only":
+		leaf = e.NameDNSOnly[row.Kind]
+	case "cn_only_dns":
+		leaf = e.CNOnly[row.Kind]
+	case "cn_only_ip":
+		leaf = e.NameCNIP[row.Kind]
+	}
+	expect := expectName(f, leafNamesOf(row.CKind))
+	suites := []uint16{row.Suite}
+	cc := tlspair.BaseClient(row.Seed)
+	cc.MinVersion, cc.MaxVersion = row.Vers, row.Vers
+	cc.CipherSuites = suites
+	cc.ServerName = f.Host
+	var res *tlspair.Result
+	if row.Peer == "zg" {
+		gs := &gotls.Config{Time: func() time.Time { return now }, Rand: tlspair.NewDetRand(row.Seed ^ 0xabcdef), MinVersion: row.Vers, MaxVersion: row.Vers,
+			Certificates: []gotls.Certificate{leaf.Go()}}
+		if row.Vers != v13 {
+			gs.CipherSuites = suites
+		}
+		res = tlspair.RunZG(cc, gs, guarded(tlspair.Options{}))
+	} else {
+		zs := &ztls.Config{Time: func() time.Time { return now }, Rand: tlspair.NewDetRand(row.Seed ^ 0xabcdef), MinVersion: row.Vers, MaxVersion: row.Vers,
+			Certificates: []ztls.Certificate{leaf.Z()}}
+		if row.Vers != v13 {
+			zs.CipherSuites = suites
+		}
+		res = tlspair.RunZZ(cc, zs, guarded(tlspair.Options{}))
+	}
+	defer res.Close()
+	c.Eval(1)
+	cs, ss := clientSide(res), serverSide(res)
+	obs := map[string]any{"row": row, "server_name": f.Host, "leaf_names": fmt.Sprintf("%+v", leafNamesOf(row.CKind)), "expect": expect, "client": cs.String(), "server": ss.String()}
+	if reportPanics(c, res, row.ID, obs) {
+		return
+	}
+	if res.TimedOut {
+		noteWatchdog(c, "C27 "+row.ID)
+		return
+	}
+	label := "name_form:" + f.Name + ":" + row.CKind
+	cellKey := fmt.Sprintf("%s:%s:%s", row.Peer, vname(row.Vers), row.KX)
+	outcome := "fail"
+	if cs.OK && cs.Complete {
+		outcome = "ok"
+	}
+	c.Count("outcome:"+label+":"+outcome, 1)
+	switch expect {
+	case "":
+		c.Count("recorded_only:"+label+":"+outcome, 1)
+		return
+	case "ok":
+		if !(cs.OK && ss.OK && cs.Complete && ss.Complete) {
+			c.Violation(fmt.Sprintf("good_credentials_rejected:%s:%s:c=%s:s=%s", label, cellKey, normErr(cs.Err), normErr(ss.Err)),
+				fmt.Sprintf("ServerName %q is covered by the certificate (%+v); client %v server %v", f.Host, leafNamesOf(row.CKind), cs.Err, ss.Err), row.ID, obs)
+			return
+		}
+	case "fail":
+		if cs.OK || cs.Complete {
+			c.Violation(fmt.Sprintf("bad_credentials_accepted:%s:%s", label, cellKey),
+				fmt.Sprintf("verifying client with ServerName %q completed against a certificate that names only %+v", f.Host, leafNamesOf(row.CKind)), row.ID, obs)
+			return
+		}
+		if !localError(cs.Err) {
+			c.Violation("undecided:refusal_not_raised_by_detector:"+label+":"+cellKey, fmt.Sprintf("client error %v, server error %v", cs.Err, ss.Err), row.ID, obs)
+			return
+		}
+	}
+	c.Nontrivial(row.sig())
+	c.Count("cell:"+cellKey, 1)
 }
 
 // resumeVariant: X = configuration of the connection that fills the cache, Y = the verifying configuration that reuses it.
@@ -384,9 +585,9 @@ func (row c27Row) runResume(c *core.Ctx) {
 	x.ClientSessionCache = cache
 	runPair := func(cc *ztls.Config) *tlspair.Result {
 		if gs != nil {
-			return tlspair.RunZG(cc, gs, tlspair.Options{})
+			return tlspair.RunZG(cc, gs, guarded(tlspair.Options{}))
 		}
-		return tlspair.RunZZ(cc, zs, tlspair.Options{})
+		return tlspair.RunZZ(cc, zs, guarded(tlspair.Options{}))
 	}
 	label := "resume_bypass:" + v.Name
 	cellKey := fmt.Sprintf("%s:%s:%s", row.Peer, vname(row.Vers), row.KX)
@@ -394,6 +595,10 @@ func (row c27Row) runResume(c *core.Ctx) {
 	c.Eval(1)
 	cs1, ss1 := clientSide(r1), serverSide(r1)
 	obs := map[string]any{"row": row, "variant": v, "conn1_client": cs1.String(), "conn1_server": ss1.String()}
+	if reportPanics(c, r1, row.ID, obs) {
+		r1.Close()
+		return
+	}
 	if r1.TimedOut {
 		r1.Close()
 		noteWatchdog(c, "C27 "+row.ID)
@@ -438,6 +643,9 @@ func (row c27Row) runResume(c *core.Ctx) {
 	}
 	obs["conn2_client"], obs["conn2_server"] = cs2.String(), ss2.String()
 	obs["conn2_verified_chains"], obs["conn2_offered_ticket"] = nver, offered
+	if reportPanics(c, r2, row.ID, obs) {
+		return
+	}
 	if r2.TimedOut {
 		noteWatchdog(c, "C27 "+row.ID)
 		return
@@ -481,6 +689,10 @@ func (row c27Row) runResume(c *core.Ctx) {
 func (row c27Row) run(c *core.Ctx) {
 	if row.Scenario == "resume_bypass" {
 		row.runResume(c)
+		return
+	}
+	if row.Scenario == "name_form" {
+		row.runNameForm(c)
 		return
 	}
 	p, e := tlspair.Get(), getExtra()
@@ -610,7 +822,7 @@ func (row c27Row) run(c *core.Ctx) {
 	}
 	switch row.Peer {
 	case "zz":
-		res = tlspair.RunZZ(mkZC(), mkZS(), opt)
+		res = tlspair.RunZZ(mkZC(), mkZS(), guarded(opt))
 	case "zg":
 		gs := &gotls.Config{Time: func() time.Time { return now }, Rand: tlspair.NewDetRand(row.Seed ^ 0xabcdef), MinVersion: row.Vers, MaxVersion: row.Vers}
 		if row.Vers != v13 {
@@ -621,7 +833,7 @@ func (row c27Row) run(c *core.Ctx) {
 		} else {
 			gs.Certificates = []gotls.Certificate{leaf.Go()}
 		}
-		res = tlspair.RunZG(mkZC(), gs, opt)
+		res = tlspair.RunZG(mkZC(), gs, guarded(opt))
 	case "gz":
 		gc := tlspair.GoClient(row.Seed)
 		gc.MinVersion, gc.MaxVersion = row.Vers, row.Vers
@@ -637,7 +849,7 @@ func (row c27Row) run(c *core.Ctx) {
 			}
 			gc.GetClientCertificate = func(*gotls.CertificateRequestInfo) (*gotls.Certificate, error) { return &cert, nil }
 		}
-		res = tlspair.RunGZ(gc, mkZS(), opt)
+		res = tlspair.RunGZ(gc, mkZS(), guarded(opt))
 	}
 	// let a TLS 1.3 server finish reading the client's flight: both Handshake calls have returned already
 	defer res.Close()
@@ -646,6 +858,9 @@ func (row c27Row) run(c *core.Ctx) {
 	obs := c27Obs{Row: row, Expect: expect, Client: cs.String(), Server: ss.String()}
 	if flt != nil {
 		obs.Plan = flt.Edit
+	}
+	if reportPanics(c, res, row.ID, obs) {
+		return
 	}
 	if res.TimedOut {
 		noteWatchdog(c, "C27 "+row.ID)
